@@ -437,3 +437,55 @@ Proof.
   intros Ha R0 R1 Hm He Hdt Hot W Hr res. rewrite (std_arm_exec ir m f dst Ha).
   exact (alu_std_mem_word_final ir f dst a m x y R0 R1 Hm He Hdt Hot W Hr).
 Qed.
+
+(* ---- shifts and rotate, word size, register destination ---- *)
+Definition shift_result (opc cnt v : Z) : option Z :=
+  let n := Z.land cnt 31 in
+  if opc =? 208 then Some (w32 (Z.shiftl v n))            (* LLSW3 *)
+  else if opc =? 212 then Some (Z.shiftr v n)              (* LRSW3 *)
+  else if opc =? 216 then Some (rotr32 v n)                (* ROTW  *)
+  else None.
+
+Lemma exec_shift ir m : iopcode ir = 208 \/ iopcode ir = 212 \/ iopcode ir = 216 ->
+  exec ir m =
+  (if iopcode ir =? 216
+   then bind (read_op ir 0 m) (fun a0 m => bind (read_op ir 1 m) (fun b m =>
+          let result := rotr32 b (Z.land a0 31) in
+          bind (write_op ir 2 result m) (fun _ m =>
+            Ok (ilen ir) (set_v false (set_c false (set_nz_flags result (op2 ir) m))))))
+   else bind (read_op ir 1 m) (fun a m => bind (read_op ir 0 m) (fun b m =>
+          let result := if iopcode ir =? 208 then w32 (Z.shiftl a (Z.land b 31)) else Z.shiftr a (Z.land b 31) in
+          bind (write_op ir 2 result m) (fun _ m =>
+            Ok (ilen ir) (set_v_flag_op result (op2 ir) (set_c false (set_nz_flags result (op2 ir) m))))))).
+Proof. intros [H|[H|H]]; unfold exec; rewrite H; reflexivity. Qed.
+
+Theorem shift_word_final ir m cnt v r res :
+  shift_result (iopcode ir) cnt v = Some res ->
+  read_op ir 0 m = Ok cnt m -> read_op ir 1 m = Ok v m ->
+  omode (get_op ir 2) = MRegister -> oreg (get_op ir 2) = Some r -> 0 <= r <= 10 -> otype (get_op ir 2) = DWord ->
+  exists m', exec ir m = Ok (ilen ir) m'
+    /\ word_outcome m m' r res (Z.testbit res 31) (res =? 0) false false.
+Proof.
+  unfold shift_result. cbv zeta. intros Hs R0 R1 Hm Hr Hr10 Ht.
+  assert (Ho : iopcode ir = 208 \/ iopcode ir = 212 \/ iopcode ir = 216).
+  { destruct (iopcode ir =? 208) eqn:E1; [lia|]. destruct (iopcode ir =? 212) eqn:E2; [lia|].
+    destruct (iopcode ir =? 216) eqn:E3; [lia|discriminate]. }
+  rewrite (exec_shift ir m Ho).
+  assert (Fin : forall x, exists m', bind (write_op ir 2 x m) (fun _ m0 =>
+            Ok (ilen ir) (set_v false (set_c false (set_nz_flags x (op2 ir) m0)))) = Ok (ilen ir) m'
+            /\ word_outcome m m' r x (Z.testbit x 31) (x =? 0) false false).
+  { intros x. rewrite (write_reg ir 2 r x m Hm Hr). cbn [bind]. eexists. split; [reflexivity|].
+    unfold set_nz_flags. change (op2 ir) with (get_op ir 2). rewrite Ht. rewrite bset_31.
+    destruct (nzvc_after (Z.testbit x 31) (x =? 0) false false (setR m r x)) as [A [B [C D]]].
+    constructor; auto.
+    - rewrite R_flags_other by lia. apply R_setR_same.
+    - intros i Hi N1 N2. rewrite R_flags_other by lia. apply R_setR_other; lia. }
+  destruct (iopcode ir =? 216) eqn:E216.
+  - replace (iopcode ir =? 208) with false in Hs by lia. replace (iopcode ir =? 212) with false in Hs by lia.
+    injection Hs as <-. rewrite R0. cbn [bind]. rewrite R1. cbn [bind]. cbv zeta. apply Fin.
+  - rewrite R1. cbn [bind]. rewrite R0. cbn [bind]. cbv zeta.
+    unfold set_v_flag_op. change (op2 ir) with (get_op ir 2). rewrite Ht. change (get_op ir 2) with (op2 ir).
+    destruct (iopcode ir =? 208) eqn:E208.
+    + injection Hs as <-. apply Fin.
+    + replace (iopcode ir =? 212) with true in Hs by lia. injection Hs as <-. apply Fin.
+Qed.
